@@ -13,7 +13,7 @@ import ast
 
 from .. import ctx
 from ..pattern import canon, find, is_name, match
-from ..project import AnalysisError, norm
+from ..project import AnalysisError, call_name, norm
 from ..specmodel import ClassV, FuncV
 
 VALUES = "tpmstream.spec.common.values"
@@ -40,7 +40,7 @@ def check(run, project):
     from . import guards
     guards.check(run, project, L)
     m1(run, L)
-    m2_accessor(run, project)
+    m2_accessor(run, project, L)
     m2_rows(run, project)
     run.floor("M1", 12 * 3, "mask obligations")
 
@@ -75,47 +75,86 @@ def m1(run, L):
     run.cover(attribute_types=[k for k, _, _ in types])
 
 
-def m2_accessor(run, project):
+def m2_accessor(run, project, L):
+    """Bit.__get__ folded over every mask of every attribute type of L with the register value left unknown: the accessor is
+    evaluated on a value whose bits are symbols (minieval.SymVec); bitwise operations with the (known) mask and shifts by
+    amounts computed from the mask are exact, so the result is a bit pattern over the symbols.  Required: bit j of the
+    result is bit (j + tz) of the value where the mask has that bit, 0 elsewhere (tz = trailing zeros of the mask) - for
+    all values at once.  On the class (obj is None) the accessor gives cls(value=mask, name=name).  No idiom is matched:
+    loops, closed forms, helpers and pre-computed shifts are all just evaluated."""
+    from ..minieval import Interp, Raised, SymVec, TypeRef
     mod = project.module(VALUES)
     f = mod.functions().get("tpm_bitfield.decorator.Bit.__get__")
     if f is None:
         raise AnalysisError("M2: Bit.__get__ not found in values.py")
-    obj = f.args.args[1].arg
-    # instance path: bits = obj._value & self._mask (either order)
-    cand = find(f, f"{obj}._value & self._mask") + find(f, f"self._mask & {obj}._value")
-    if len(cand) != 1:
-        run.ob("M2", False, "accessor masks the value", "instance path does not compute `obj._value & self._mask`",
-               module=mod, node=f, func="Bit.__get__", construct="Bit.__get__ masking")
-        return
-    st = cand[0][0]._parent
-    if isinstance(st, ast.BinOp) and isinstance(st.op, ast.RShift) and st.left is cand[0][0]:
-        # closed form: (value & mask) >> <shift>; the shift must be the number of trailing zeros of the mask
-        run.ob("M2", True, "accessor masks the value")
-        sh = st.right
-        init = mod.functions().get("tpm_bitfield.decorator.Bit.__init__")
-        expr = sh
-        if isinstance(sh, ast.Attribute) and isinstance(sh.value, ast.Name) and sh.value.id == "self" and init is not None:
-            d = [a for a in ast.walk(init) if isinstance(a, ast.Assign) and norm(a.targets[0]) == norm(sh)]
-            if len(d) != 1:
-                raise AnalysisError(f"M2: `{norm(sh)}` is not assigned exactly once in Bit.__init__")
-            expr = d[0].value
-        m = "self._mask" if expr is sh else init.args.args[2].arg
-        good = {canon(f"({m} & -{m}).bit_length() - 1"), canon(f"({m} & ~({m} - 1)).bit_length() - 1")}
-        wrong = {canon(f"{m}.bit_length() - 1"), canon(f"{m}.bit_length()")}
-        if norm(expr) in good:
-            run.ob("M2", True, "accessor shifts by the mask's trailing zeros")
-        elif norm(expr) in wrong:
-            run.ob("M2", False, "accessor shifts by the mask's trailing zeros",
-                   f"the field is shifted down by `{norm(expr)}` - the position of the mask's HIGHEST bit: every multi-bit field "
-                   "reads only its top bit instead of its right-aligned value", module=mod, node=expr, func="Bit.__get__",
-                   construct="Bit shift amount")
-        else:
-            raise AnalysisError(f"M2: shift amount `{norm(expr)}` of the accessor is not a recognised trailing-zero count")
-        ret = st._parent
-        run.ob("M2", isinstance(ret, ast.Return), "accessor returns the shifted field bits", "the shifted bits are not returned",
-               module=mod, node=st, func="Bit.__get__", construct="Bit.__get__ return")
-    else:
-        m2_loop_form(run, mod, f, cand[0][0], st)
+    init = mod.functions().get("tpm_bitfield.decorator.Bit.__init__")
+    n = 0
+    bad_reported = set()
+    for k, c, bf in bitfield_types(L):
+        width = 8 * L.int_size(c)
+        for name, mask in bf.masks.items():
+            if mask == 0:
+                continue  # M1 reports it
+            made = []
+
+            def cls(*a_, **kw):
+                made.append((a_, kw))
+                return ("instance-of-cls", len(made) - 1)
+            it = Interp({"cls": cls}, module_tree=mod.tree, max_steps=200000)
+            selfobj = TypeRef("Bit", attrs={})
+            try:
+                if init is not None:
+                    it.call(init, [selfobj], {"name": name, "mask": mask})
+                else:
+                    selfobj.attrs.update(_name=name, _mask=mask)
+                got = it.call(f, [selfobj, TypeRef("register", attrs={"_value": SymVec.unknown(width)}), None])
+            except Raised as r:
+                got = f"raises {r.cls}"
+            tz = (mask & -mask).bit_length() - 1
+            want = SymVec([("v", j + tz) if j + tz < width and (mask >> (j + tz)) & 1 else 0 for j in range(SymVec.WIDTH)])
+            n += 1
+            ok = got == want or (isinstance(got, int) and want.concrete() == got)
+            key = "instance"
+            if ok or key not in bad_reported:
+                if not ok:
+                    bad_reported.add(key)
+                run.ob("M2", ok, f"{k}.{name}: accessor gives the field's bits right-aligned",
+                       f"for mask {mask:#x} ({k}.{name}) the accessor gives {got!r} of a value v, required {want!r} = (v & mask) >> {tz}: "
+                       "the field is not masked, or not shifted down by the mask's trailing zeros (e.g. by the position of its highest "
+                       "bit, so that multi-bit fields lose their low bits)", module=mod, node=f, func="Bit.__get__",
+                       construct="Bit.__get__ field value")
+            made.clear()
+            try:
+                got = Interp({"cls": cls}, module_tree=mod.tree, max_steps=200000).call(f, [selfobj, None, None])
+            except Raised as r:
+                got = f"raises {r.cls}"
+            okc = isinstance(got, tuple) and got[:1] == ("instance-of-cls",) and len(made) >= 1 and \
+                (made[got[1]] == ((), {"value": mask, "name": name}) or made[got[1]] == ((mask, name), {})
+                 or made[got[1]] == ((mask,), {"name": name}))
+            if okc or "class" not in bad_reported:
+                if not okc:
+                    bad_reported.add("class")
+                run.ob("M2", okc, f"{k}.{name}: on the class the accessor is the named mask",
+                       f"{k}.{name} read on the class gives {got!r} built from {made}; required cls(value={mask:#x}, name={name!r})",
+                       module=mod, node=f, func="Bit.__get__", construct="Bit.__get__ on class")
+    run.require(n >= 40, f"M2: accessor folded over only {n} masks")
+    # the descriptor is installed with the attribute's own name and mask
+    dec = mod.functions().get("tpm_bitfield.decorator")
+    sets = [c_ for c_ in ast.walk(dec) if isinstance(c_, ast.Call) and call_name(c_) == "setattr" and len(c_.args) == 3
+            and isinstance(c_.args[2], ast.Call) and call_name(c_.args[2]) == "Bit"] if dec is not None else []
+    ok = len(sets) == 1
+    if ok:
+        b_ = sets[0].args[2]
+        kw = {k_.arg: norm(k_.value) for k_ in b_.keywords}
+        pos = [norm(x) for x in b_.args]
+        an = norm(sets[0].args[1])
+        loops = [lp for lp in ast.walk(dec) if isinstance(lp, ast.For) and any(x is sets[0] for x in ast.walk(lp))]
+        tv = [norm(e_) for e_ in loops[0].target.elts] if loops and isinstance(loops[0].target, ast.Tuple) else []
+        ok = len(tv) == 2 and an == tv[0] and (kw == {"name": tv[0], "mask": tv[1]} or pos == tv) and norm(sets[0].args[0]) == "cls" \
+            and norm(loops[0].iter) == "inspect.getmembers(cls)"
+    run.ob("M2", ok, "every mask attribute is replaced by its accessor, built from the attribute's name and mask",
+           "the accessor is no longer installed as setattr(cls, name, Bit(name=name, mask=mask)) for the members of cls", module=mod,
+           node=sets[0] if sets else (dec or mod.tree), func="tpm_bitfield", construct="Bit installation")
     # attributes(): every public non-routine attribute of type(self)
     a = mod.functions().get("tpm_bitfield.decorator.attributes")
     if a is None:
@@ -126,38 +165,6 @@ def m2_accessor(run, project):
           and norm(gens[0].generators[0].ifs[0]).startswith("_is_public_non_funtion_attr("))
     run.ob("M2", ok, "attributes() enumerates every mask", "attributes() no longer yields all public mask attributes",
            module=mod, node=a, func="attributes", construct="attributes() members")
-
-
-def m2_loop_form(run, mod, f, masked, st):
-    if not (isinstance(st, ast.Assign) and isinstance(st.targets[0], ast.Name)):
-        raise AnalysisError("M2: masking expression is not assigned to a local")
-    bits = st.targets[0].id
-    run.ob("M2", True, "accessor masks the value")
-    loops = [n for n in ast.walk(f) if isinstance(n, ast.While)]
-    if len(loops) != 1:
-        raise AnalysisError("M2: shift loop of Bit.__get__ not found")
-    lp = loops[0]
-    m = match(lp.test, "M_mask & 1 == 0")
-    if m is None or not isinstance(m["M_mask"], ast.Name):
-        raise AnalysisError(f"M2: shift loop condition not recognised: {norm(lp.test)}")
-    mk = m["M_mask"].id
-    shifts = sorted(norm(s) for s in lp.body)
-    run.ob("M2", shifts == sorted([f"{bits} >>= 1", f"{mk} >>= 1"]), "accessor shifts value and mask together",
-           f"shift loop body is {shifts}; must shift `{bits}` and `{mk}` right by one each", module=mod, node=lp,
-           func="Bit.__get__", construct="Bit.__get__ shift loop")
-    init = [s for s in ast.walk(f) if isinstance(s, ast.Assign) and is_name(s.targets[0], mk)]
-    run.ob("M2", len(init) == 1 and norm(init[0].value) == "self._mask", "shift counter starts from the mask",
-           "loop mask is not initialised from self._mask", module=mod, node=lp, func="Bit.__get__",
-           construct="Bit.__get__ mask init")
-    # the instance path (obj is not None) runs the shift loop and then returns the shifted bits
-    from .. import paths
-    obj = f.args.args[1].arg
-    inst = [p for p in paths.summarise(mod, f) if p.truth(f"{obj} is None") is False]
-    ok = bool(inst) and all(p.end == "return" and p.value_text() == bits and any(k == "loop" and n_ is lp for k, _e, n_ in p.effects)
-                            for p in inst)
-    run.ob("M2", ok, "accessor returns the shifted field bits",
-           f"instance path does not return the shifted bits: {[(p.end, p.value_text()) for p in inst]}", module=mod, node=st,
-           func="Bit.__get__", construct="Bit.__get__ return")
 
 
 def m2_rows(run, project):
